@@ -70,6 +70,9 @@ pub struct GraphCase {
     /// elsewhere): build writes through the link, dependency detection must still find the source
     /// beside the link
     pub stale_link: bool,
+    /// every directive line uses the prefix `-`, and a text line follows each command (it is that
+    /// text line which ends the command's block; the next `-TXTPP#include` must not be swallowed)
+    pub same_prefix: bool,
     /// history inside this process, on the same directory: before the judged run, an earlier
     /// revision of the project (edge mask, generation-0 tokens) is built, in which the vertices of
     /// the second bitmask have no `.txtpp` source yet but are hand-written plain files. Anything the
@@ -79,14 +82,14 @@ pub struct GraphCase {
 
 impl GraphCase {
     pub fn new(n: usize, mask: u64) -> Self {
-        Self { n, mask, kinds: 0, requested: (0..n).collect(), input_style: 0, threads: 2, stale: true, dup_edges: false, markers: true, obs: false, mode: Mode::Build, subdirs: false, fail_at: None, fail_kind: 0, after_only: false, vanish: false, slow_ms: 0, shaped: false, big: false, spaced: false, no_tail: false, stale_ext: false, linked: false, empty_leaves: false, outside: false, stale_link: false, prior: None }
+        Self { n, mask, kinds: 0, requested: (0..n).collect(), input_style: 0, threads: 2, stale: true, dup_edges: false, markers: true, obs: false, mode: Mode::Build, subdirs: false, fail_at: None, fail_kind: 0, after_only: false, vanish: false, slow_ms: 0, shaped: false, big: false, spaced: false, no_tail: false, stale_ext: false, linked: false, empty_leaves: false, outside: false, stale_link: false, same_prefix: false, prior: None }
     }
     pub fn graph(&self) -> Graph {
         Graph::from_mask(self.n, self.mask, self.kinds)
     }
     pub fn to_json(&self, spec: &Spec) -> Value {
         json!({"kind": "graph", "n": self.n, "mask": self.mask, "kinds": self.kinds, "requested": self.requested, "input_style": self.input_style, "threads": self.threads,
-            "stale": self.stale, "dup_edges": self.dup_edges, "markers": self.markers, "obs": self.obs, "mode": mode_name(&self.mode), "subdirs": self.subdirs, "fail_at": self.fail_at, "fail_kind": self.fail_kind, "after_only": self.after_only, "vanish": self.vanish, "slow_ms": self.slow_ms, "shaped": self.shaped, "big": self.big, "spaced": self.spaced, "no_tail": self.no_tail, "stale_ext": self.stale_ext, "linked": self.linked, "empty_leaves": self.empty_leaves, "outside": self.outside, "stale_link": self.stale_link, "prior": self.prior.map(|(a, b)| vec![a, b]),
+            "stale": self.stale, "dup_edges": self.dup_edges, "markers": self.markers, "obs": self.obs, "mode": mode_name(&self.mode), "subdirs": self.subdirs, "fail_at": self.fail_at, "fail_kind": self.fail_kind, "after_only": self.after_only, "vanish": self.vanish, "slow_ms": self.slow_ms, "shaped": self.shaped, "big": self.big, "spaced": self.spaced, "no_tail": self.no_tail, "stale_ext": self.stale_ext, "linked": self.linked, "empty_leaves": self.empty_leaves, "outside": self.outside, "stale_link": self.stale_link, "same_prefix": self.same_prefix, "prior": self.prior.map(|(a, b)| vec![a, b]),
             "edges": self.graph().edges.iter().enumerate().map(|(i, e)| format!("f{i} -> {:?}", e.iter().map(|(j, k)| format!("f{j}{}", if *k == EdgeKind::AfterCat { "(after+cat)" } else { "" })).collect::<Vec<_>>())).collect::<Vec<_>>(),
             "schedule": spec_json(spec)})
     }
@@ -119,13 +122,14 @@ impl GraphCase {
                 empty_leaves: v["empty_leaves"].as_bool().unwrap_or(false),
                 outside: v["outside"].as_bool().unwrap_or(false),
                 stale_link: v["stale_link"].as_bool().unwrap_or(false),
+                same_prefix: v["same_prefix"].as_bool().unwrap_or(false),
                 prior: v["prior"].as_array().and_then(|a| Some((a.first()?.as_u64()?, a.get(1)?.as_u64()?))),
             },
             spec_from_json(&v["schedule"]),
         )
     }
     pub fn hash(&self) -> u64 {
-        crate::util::hash_str(&format!("{:?}", (self.n, self.mask, self.kinds, &self.requested, self.input_style, self.threads, self.stale, self.dup_edges, self.subdirs, mode_name(&self.mode), (self.fail_at, self.fail_kind, self.after_only, self.vanish, self.shaped, self.big), (self.spaced, self.no_tail, self.stale_ext, self.linked, self.empty_leaves, self.prior, self.outside, self.stale_link))))
+        crate::util::hash_str(&format!("{:?}", (self.n, self.mask, self.kinds, &self.requested, self.input_style, self.threads, self.stale, self.dup_edges, self.subdirs, mode_name(&self.mode), (self.fail_at, self.fail_kind, self.after_only, self.vanish, self.shaped, self.big), (self.spaced, self.no_tail, self.stale_ext, self.linked, self.empty_leaves, self.prior, self.outside, self.stale_link, self.same_prefix))))
     }
     fn dir_of(&self, i: usize) -> &'static str {
         if self.outside {
@@ -205,7 +209,7 @@ pub struct GraphRun {
 fn build_files(case: &GraphCase, generation: u32, marker_log: Option<&str>, obs_log: Option<&str>) -> Files {
     let g = case.graph();
     let flat = graph_files(&g, generation, 0xabc0 + case.mask, if case.markers { marker_log } else { None }, if case.obs { obs_log } else { None }, case.dup_edges);
-    if !case.subdirs && case.fail_at.is_none() && !case.after_only && !case.vanish && case.slow_ms == 0 && !case.shaped && !case.big && !case.spaced && !case.no_tail && !case.linked && !case.empty_leaves && !case.outside {
+    if !case.subdirs && case.fail_at.is_none() && !case.after_only && !case.vanish && case.slow_ms == 0 && !case.shaped && !case.big && !case.spaced && !case.no_tail && !case.linked && !case.empty_leaves && !case.outside && !case.same_prefix {
         return flat;
     }
     // re-home odd files into d/ and rewrite references accordingly; inject the failing command
@@ -242,6 +246,18 @@ fn build_files(case: &GraphCase, generation: u32, marker_log: Option<&str>, obs_
             }
             if case.slow_ms > 0 && l.starts_with("//TXTPP#run echo ") {
                 l = l.replacen("//TXTPP#run echo ", &format!("//TXTPP#run sleep {}.{:03}; echo ", case.slow_ms / 1000, case.slow_ms % 1000), 1);
+            }
+            if case.same_prefix {
+                let is_cmd = l.starts_with("#TXTPP#run") || l.starts_with("//TXTPP#run");
+                if let Some(rest) = l.strip_prefix("#TXTPP#").or_else(|| l.strip_prefix("//TXTPP#")) {
+                    l = format!("-TXTPP#{rest}");
+                }
+                out.push_str(&l);
+                out.push('\n');
+                if is_cmd {
+                    out.push_str(&format!("text that ends the command block of {}\n", graph_name(i)));
+                }
+                continue;
             }
             out.push_str(&l);
             out.push('\n');
@@ -454,7 +470,7 @@ pub fn exec(ctx: &mut Ctx, case: &GraphCase, spec: Spec, log_events: bool) -> Gr
     let cfg = RunCfg { base: base_dir.clone(), inputs: inputs_of(case), mode: case.mode.clone(), threads: case.threads, recursive: true, trailing: true, shell: String::new() };
     let outcome = run_inproc(&cfg, spec, Some(&base_dir), log_events);
     ctx.evals += 1;
-    for (on, name) in [(case.spaced, "spaced"), (case.no_tail, "no_tail"), (case.stale_ext, "stale_ext"), (case.linked, "linked"), (case.empty_leaves, "empty_leaves"), (case.outside, "outside"), (case.stale_link, "stale_link"), (case.prior.is_some(), "prior"), (case.shaped, "shaped"), (case.subdirs, "subdirs"), (case.big, "big"), (case.requested.is_empty() && case.input_style < 4, "empty_selection")] {
+    for (on, name) in [(case.spaced, "spaced"), (case.no_tail, "no_tail"), (case.stale_ext, "stale_ext"), (case.linked, "linked"), (case.empty_leaves, "empty_leaves"), (case.outside, "outside"), (case.stale_link, "stale_link"), (case.same_prefix, "same_prefix"), (case.prior.is_some(), "prior"), (case.shaped, "shaped"), (case.subdirs, "subdirs"), (case.big, "big"), (case.requested.is_empty() && case.input_style < 4, "empty_selection")] {
         if on {
             ctx.count(&format!("executions_with_variant_{name}"), 1);
         }
